@@ -186,7 +186,7 @@ class Harness:
         self.origin = rig.Origin()
         self.squids = {}
         for c in cfgs:
-            self.squids[c] = rig.Squid(stage, conf=CONFS[c]).start()
+            self.squids[c] = rig.Squid(stage, conf=CONFS[c]).start(wait=90.0)   # a loaded machine can take long to start five instances
         self.n = 0
         self.lock = threading.Lock()
         self.crashes = 0
@@ -197,7 +197,7 @@ class Harness:
             self.n += 1
             return "f%d" % self.n
 
-    def attempt(self, sc):
+    def attempt(self, sc, late=0.55):
         """-> observation, or None when the wall clock crossed a second boundary inside an exchange"""
         squid = self.squids[sc.cfg]
         sid = self._sid()
@@ -217,7 +217,7 @@ class Harness:
         self.origin.on(sid, handler)
         url = self.origin.url(sid, "o")
         # every exchange must fall inside one wall-clock second
-        while time.time() % 1.0 > 0.55:
+        while time.time() % 1.0 > late:
             time.sleep(0.02)
         r1 = rig.get(squid.port, url)
         s0 = state.get("s0")
@@ -275,8 +275,9 @@ class Harness:
         if sc.cfg not in self.squids:
             return "bad-op"
         try:
-            for _ in range(8):
-                obs = self.attempt(sc)
+            for i in range(10):
+                # start earlier in the second after every failed attempt (a loaded machine needs more room)
+                obs = self.attempt(sc, late=max(0.1, 0.55 - 0.1 * i))
                 if obs is not None:
                     return obs
                 with self.lock:
@@ -286,7 +287,7 @@ class Harness:
             return "abort:io-%s" % type(e).__name__
 
     def run(self, lines):
-        with ThreadPoolExecutor(max_workers=16) as ex:
+        with ThreadPoolExecutor(max_workers=24) as ex:
             return list(ex.map(self.one, lines))
 
     def problems(self):
